@@ -62,13 +62,15 @@ func ResolveSymbolicLink(path string) (string, error) {
 //   - string correspondent path section of the symbolic link
 //   - An error
 func getSymbolinkLink(path string) (string, string, error) {
+	if !filepath.IsAbs(path) {
+		// a relative path is not anchored yet: its components must not be looked up
+		// from the working directory of the process
+		return "", "", nil
+	}
 	parts := strings.Split(path, string(os.PathSeparator))
 
 	// Reconstruct the path step by step, checking each component
-	var currentPath string
-	if filepath.IsAbs(path) {
-		currentPath = string(os.PathSeparator)
-	}
+	currentPath := string(os.PathSeparator)
 
 	for _, part := range parts {
 		if part == "" {
